@@ -7,8 +7,8 @@ import json, os, sys, time, tempfile, shutil, hashlib, traceback
 VERIF = os.path.dirname(os.path.dirname(os.path.abspath(__file__)))
 REPO = os.environ.get('HV_REPO', '/repo')
 SPEC = os.path.join(VERIF, 'spec')
-EVID = os.path.join(VERIF, 'evidence')
-REPLAY = os.path.join(VERIF, 'replay')
+EVID = os.environ.get('HV_EVID', os.path.join(VERIF, 'evidence'))      # (self-tests / seeded runs redirect these)
+REPLAY = os.environ.get('HV_REPLAY', os.path.join(VERIF, 'replay'))
 NPROC = min(16, os.cpu_count() or 1)
 
 
